@@ -71,6 +71,7 @@ def main():
         print("patch does not apply to /repo:", o)
         return 2
     fired = {}
+    killed = {}
     try:
         props = [json.loads(l)["id"] for l in open(os.path.join(VERIF, "properties.jsonl"))]
         for p in props:
@@ -78,11 +79,16 @@ def main():
                 continue
             rc, o = sh("./check %s --no-evidence" % p, cwd=VERIF, env=dict(os.environ, PV_SELFTEST="1"))
             v = [l for l in o.splitlines() if l.startswith("VIOLATION")]
-            if rc != 0 or v:
+            if rc not in (0, 1) or (rc == 1 and not v):
+                killed[p] = "exit %d, no VIOLATION line: %s" % (rc, o[-200:])
+            elif v:
                 fired[p] = [re.sub(r"replay=\S+ ", "", l)[:260] for l in v[:4]]
     finally:
         sh("git -C /repo checkout -- .")
     meta["checks_fired"] = fired
+    if killed:
+        meta["checks_killed"] = killed
+        print("KILLED checks:", killed)
     meta["caught_by_own_property"] = prop in fired
     sys.path.insert(0, os.path.dirname(os.path.abspath(__file__)))
     from seed_refresh import caught_by
